@@ -7,6 +7,7 @@ import (
 	"sort"
 	"strings"
 	"sync"
+	"sync/atomic"
 	"testing"
 	"time"
 
@@ -114,6 +115,7 @@ func TestC38(t *testing.T) {
 	defer r.Finish()
 	r.SetRule("round = one isaac.ProposalMaker of the local node over a real TempPool (proposal pool + operation pool feeding getOperations through OperationHashes with limit 3..10, as launch/p_proposal_maker.go wires it; the pool holds facts signed several times, interleaved), 1..3 positions (point, previous block), 2..12 goroutines issuing 8..32 Make/PreferEmpty calls per position at once while another goroutine adds operations; lastBlockMap is absent, or one block below the positions so that matching, non-matching and unreachable positions occur; distinct = fingerprint of the observed order of call/return events per round (only rounds where calls overlapped); every answer for a position is compared with the first one and with ProposalByPoint afterwards")
 	r.Assume("no position lies more than one block below the last block map (Make answers 'too old' there by design)")
+	r.Assume("fault phase (beyond the property's quantifier, which has no faults): single ProposalByPoint / SetProposal / Proposal calls of the pool given to the maker fail once with a transient error, before or after reaching the real TempPool; an error answer of Make/PreferEmpty is accepted, all successful answers for one position must still be the same signed proposal and the real pool must agree")
 
 	g := newRig()
 	const workers = 4
@@ -131,6 +133,9 @@ func TestC38(t *testing.T) {
 			round(r, g, sl, ri)
 			slots <- sl
 		})
+		sl := <-slots
+		faultPhase(r, g, sl)
+		slots <- sl
 	})
 	if r.Counter("proposals_returned") == 0 || r.Counter("rounds_with_overlapping_calls") == 0 {
 		r.Inconclusive("no proposal was returned or no calls overlapped")
@@ -427,4 +432,196 @@ func round(r *vlib.Run, g *rig, sl *slot, ri int) {
 		}
 		r.Sample(w)
 	}
+}
+
+// ---- fault phase ------------------------------------------------------------------
+
+// flakyPool is the real TempPool with single calls failing once: the n-th call
+// (counted from arming) of one method returns a transient error, either
+// without reaching the pool or after the pool did its work.
+type flakyPool struct {
+	inner  *isaacdatabase.TempPool
+	method string // "ProposalByPoint", "SetProposal", "Proposal"
+	after  bool   // fail after the real call was made
+	left   atomic.Int64
+	fired  atomic.Int64
+}
+
+var errTransient = fmt.Errorf("verif: transient pool failure")
+
+func (p *flakyPool) arm(method string, nth int, after bool) {
+	p.method, p.after = method, after
+	p.left.Store(int64(nth))
+}
+
+func (p *flakyPool) fail(method string) bool {
+	if p.method != method || p.left.Load() <= 0 {
+		return false
+	}
+	if p.left.Add(-1) == 0 {
+		p.fired.Add(1)
+		return true
+	}
+	return false
+}
+
+func (p *flakyPool) Proposal(h util.Hash) (base.ProposalSignFact, bool, error) {
+	f := p.fail("Proposal")
+	if f && !p.after {
+		return nil, false, errTransient
+	}
+	pr, found, err := p.inner.Proposal(h)
+	if f {
+		return nil, false, errTransient
+	}
+	return pr, found, err
+}
+
+func (p *flakyPool) ProposalBytes(h util.Hash) (string, []byte, []byte, bool, error) {
+	return p.inner.ProposalBytes(h)
+}
+
+func (p *flakyPool) ProposalByPoint(point base.Point, proposer base.Address, prev util.Hash) (base.ProposalSignFact, bool, error) {
+	f := p.fail("ProposalByPoint")
+	if f && !p.after {
+		return nil, false, errTransient
+	}
+	pr, found, err := p.inner.ProposalByPoint(point, proposer, prev)
+	if f {
+		return nil, false, errTransient
+	}
+	return pr, found, err
+}
+
+func (p *flakyPool) SetProposal(pr base.ProposalSignFact) (bool, error) {
+	f := p.fail("SetProposal")
+	if f && !p.after {
+		return false, errTransient
+	}
+	ok, err := p.inner.SetProposal(pr)
+	if f {
+		return false, errTransient
+	}
+	return ok, err
+}
+
+// faultPhase: for every pool call site of the maker, for the 1st..4th call of
+// it and both ways of failing, one position gets a sequential script of calls
+// and then a concurrent burst with the fault armed again.
+func faultPhase(r *vlib.Run, g *rig, sl *slot) {
+	ctx := context.Background()
+	if len(sl.facts) == 0 {
+		for k := 0; k < 2; k++ {
+			for f := 0; f < 3; f++ {
+				sl.addOp(g, f, g.keys[k])
+			}
+		}
+	}
+	getOperations := func(ctx context.Context, height base.Height) ([][2]util.Hash, error) {
+		return sl.pool.OperationHashes(ctx, height, 5, nil)
+	}
+	h := sl.nextH + 1000
+	nth := r.N(3, 4)
+	for _, method := range []string{"ProposalByPoint", "SetProposal", "Proposal"} {
+		for n := 1; n <= nth; n++ {
+			for _, after := range []bool{false, true} {
+				h++
+				fp := &flakyPool{inner: sl.pool}
+				maker := isaac.NewProposalMaker(g.local, g.networkID, getOperations, fp, nil)
+				point, prev := base.RawPoint(h, uint64(n%3)), valuehash.RandomSHA256()
+				name := fmt.Sprintf("fault/%s/call%d/after=%v", method, n, after)
+
+				var mu sync.Mutex
+				var calls []call
+				var prs []base.ProposalSignFact
+				t0 := time.Now()
+				do := func(client int, empty bool) {
+					cl := call{Client: client, Kind: "Make", Position: name}
+					var pr base.ProposalSignFact
+					var err error
+					cl.Call = time.Since(t0).Nanoseconds()
+					if empty {
+						cl.Kind = "PreferEmpty"
+						pr, err = maker.PreferEmpty(ctx, point, prev)
+					} else {
+						pr, err = maker.Make(ctx, point, prev)
+					}
+					cl.Return = time.Since(t0).Nanoseconds()
+					mu.Lock()
+					defer mu.Unlock()
+					switch {
+					case err != nil:
+						cl.Result = "error: " + err.Error()
+						r.Count("fault_phase_error_answers", 1)
+					case pr == nil:
+						cl.Result = "nil"
+					default:
+						cl.Result = short(proposalID(pr))
+						cl.NOps = len(pr.ProposalFact().Operations())
+						prs = append(prs, pr)
+						r.Count("fault_phase_proposals_returned", 1)
+					}
+					calls = append(calls, cl)
+				}
+
+				// sequential script
+				fp.arm(method, n, after)
+				for i, empty := range []bool{false, true, false, false, true, false} {
+					_ = i
+					do(0, empty)
+				}
+				// concurrent burst, the next call of the method fails once more
+				fp.arm(method, 1+n%2, after)
+				var wg sync.WaitGroup
+				start := make(chan struct{})
+				for c := 1; c <= 3; c++ {
+					wg.Add(1)
+					go func(c int) {
+						defer wg.Done()
+						<-start
+						do(c, c == 2)
+						do(c, false)
+					}(c)
+				}
+				if !r.WithWatchdog(5*time.Minute, "ProposalMaker fault burst", func() {
+					close(start)
+					wg.Wait()
+				}) {
+					return
+				}
+				r.Count("fault_phase_faults_fired", int(fp.fired.Load()))
+				r.Case(name)
+
+				wit := map[string]any{"phase": "fault", "failing_method": method, "failing_call": n, "fails_after_real_call": after, "calls": calls}
+				ids := map[string]bool{}
+				facts := map[string]bool{}
+				for _, pr := range prs {
+					ids[proposalID(pr)] = true
+					facts[pr.Fact().Hash().String()] = true
+				}
+				if len(ids) > 1 {
+					shape := "same-fact-signed-differently"
+					if len(facts) > 1 {
+						shape = "different-proposal-facts"
+					}
+					r.Violation("ProposalMaker:fault:different-proposals-for-one-position:"+shape+":failing="+method,
+						fmt.Sprintf("%s: %d different signed proposals (%d facts) were returned for one position", name, len(ids), len(facts)), wit)
+				}
+				if len(prs) > 0 {
+					switch pr, found, err := sl.pool.ProposalByPoint(point, g.local.Address(), prev); {
+					case err != nil:
+						r.Violation("ProposalByPoint:error", err.Error(), wit)
+					case !found:
+						r.Violation("ProposalMaker:fault:returned-proposal-not-in-pool:failing="+method, name+": a proposal was handed out but the pool has none by point", wit)
+					case len(ids) == 1 && !ids[proposalID(pr)]:
+						r.Violation("ProposalMaker:fault:pool-has-another-proposal:failing="+method, name+": the pool returns a proposal other than the one handed out", wit)
+					}
+				}
+				if n == 1 && !after {
+					r.Sample(map[string]any{"phase": "fault", "failing_method": method, "failing_call": n, "calls": calls[:min(len(calls), 8)]})
+				}
+			}
+		}
+	}
+	sl.nextH = h + 10
 }
